@@ -61,6 +61,7 @@ fn real_main() {
     match cmd.as_str() {
         "explore" => {
             let root: Vec<usize> = arg("--root", "2,4").split(',').map(|x| x.parse().unwrap()).collect();
+            explore::RARE_LAST.store(std::env::args().any(|a| a == "--rare-last"), std::sync::atomic::Ordering::Relaxed);
             let shard: Vec<usize> = arg("--shard", "0/1").split('/').map(|x| x.parse().unwrap()).collect();
             let cfg = Cfg {
                 root: (root[0], root[1]),
